@@ -706,6 +706,11 @@ def run(chk, tier, seed):
         for p in probe_res:
             if p["expect"] == "reject" and p["verdict"] == "accept":
                 probe_viol.append(p)
+            elif p["expect"] == "accept" and p["verdict"] == "reject" and "const _: () = assert!" in p.get("text", ""):
+                # an accept-probe whose const assertions state facts the derive must generate (NEEDS_TRACE of a
+                # type with a traced pointer field ...): its rejection is a failing input, not just a drift
+                p = dict(p, asserted=True)
+                probe_viol.append(p)
             elif p["expect"] != p["verdict"]:
                 probe_mism.append(p)
         chk.correspondence("compile probes: %d programs (%d reject + %d accept twins) get the expected rustc verdict" % (
@@ -759,6 +764,11 @@ def _decide(chk, tier, seed, cfg, viols, mism_rt, mism_tok, probe_viol, base, to
     if viols:
         chk.notes.append("run-time oracle failures in total: %d" % len(viols))
     for p in probe_viol:
+        if p.get("asserted"):
+            chk.violation("a compile-time assertion about the generated impl fails (%s): %s: %s" % (p["clause"], p["file"], (p.get("first_error") or "")[:200]),
+                          "// probe %s, compiled as a library against the current tree (%s); expected: accept, got: reject\n%s" % (p["file"], vlib.REPO, p["text"]),
+                          key="probe:" + p["file"])
+            continue
         chk.violation("rustc ACCEPTS a program that the derive must refuse (%s): %s" % (p["clause"], p["file"]),
                       "// probe %s, compiled as a library against the current tree (%s); expected: reject, got: accept\n%s" % (p["file"], vlib.REPO, p["text"]),
                       key="probe:" + p["file"])
